@@ -127,8 +127,10 @@ func (sc *SearchCache) CleanupExpired() int {
 
 // generateCacheKey creates a unique cache key for the query and options
 func (sc *SearchCache) generateCacheKey(query string, options SearchOptions) string {
-	// Normalize query for consistent caching
-	normalizedQuery := strings.ToLower(strings.TrimSpace(query))
+	// Normalize query for consistent caching. Only letter case is folded: every
+	// search path ignores case, but the typo fallback matches the query text as
+	// given, so a padded query does not always have the unpadded query's answer.
+	normalizedQuery := strings.ToLower(query)
 
 	// Create a deterministic key that includes all relevant options
 	keyData := struct {
